@@ -50,7 +50,21 @@ LAYER_FIELDS = {  # layer code -> columns that layer fills at the outer level
 }
 
 
-def subset_ok(full, cut, caplen):
+def frame_tags(d):
+    """ethertypes and VLAN ids really present in the frame's Ethernet / 802.1Q headers"""
+    ets, vids = [], []
+    off = 12
+    while off + 2 <= len(d):
+        et = int.from_bytes(d[off:off + 2], 'big')
+        ets.append(et)
+        if et != 0x8100 or off + 4 > len(d):
+            break
+        vids.append(int.from_bytes(d[off + 2:off + 4], 'big'))
+        off += 4
+    return ets, vids
+
+
+def subset_ok(full, cut, caplen, frame=None):
     """the property's quantifier: the parsed message agrees with the frame on every field whose header
     lies completely inside the capture (outer headers only); and every scalar it reports equals the
     frame's value or is absent"""
@@ -59,6 +73,14 @@ def subset_ok(full, cut, caplen):
         return False
     # scalar fields: true value or unset (etype / vlan_id report the last tag seen; layer sizes of a
     # partially captured variable-size layer report the part seen)
+    if frame is not None:
+        # etype / vlan_id report the last tag seen: the value must be one of the frame's own tags, or the
+        # value the complete frame reports (the IP version seen behind an MPLS stack)
+        ets, vids = frame_tags(frame)
+        ok_et = {'#%x' % e for e in ets} | set(E.get('#1e', []))
+        ok_vid = {'#%x' % v for v in vids} | set(E.get('#1d', []))
+        if any(v not in ok_et for v in O.get('#1e', [])) or any(v not in ok_vid for v in O.get('#1d', [])):
+            return False
     for k, vs in O.items():
         if k in SKIP or k == '#68':
             continue
@@ -106,23 +128,24 @@ def run(chk):
     # every capture length
     nf = dict(quick=250, thorough=4000)[chk.tier]
     base = model_gen(GEN, 0, chk.seed + 3, 0, nf)
-    lines, owner, caps = [], [], []
+    lines, owner, caps, frames = [], [], [], []
     for a, e in base:
         _, d = payload_of(a)
         for k in range(len(d) + 1):
             lines.append('pkt =' + d[:k].hex())
             owner.append(e)
             caps.append(k)
+            frames.append(d)
     impl = impl_run(chk.harness, lines, timeout=120.0)
     mod = model_run(GEN, lines)
     chk.evals += len(lines)
     chk.count('scopeB:cuts', len(lines))
     chk.exhaustive.append('every capture length 0..len of %d frames: %d parses' % (nf, len(lines)))
     bad = []
-    for a, o, m, e, cap in zip(lines, impl, mod, owner, caps):
+    for a, o, m, e, cap, fr in zip(lines, impl, mod, owner, caps, frames):
         if nontrivial(a, m):
             chk.nontrivial.add(hashlib.sha1(a.encode()).digest()[:8])
-        if not subset_ok(e, o, cap):
+        if not subset_ok(e, o, cap, fr):
             chk.record('scopeA-cut', dict(concrete=True, input=a, impl=o, expected_full=e, model=m,
                                           what='a truncated capture reports a field that is neither the frame\'s value nor unset'), {})
         elif o != m:
